@@ -104,8 +104,11 @@ def build_symbolic(shape, profile=False):
 
     def run():
         P = engine.Params("sym", explorer=ex)
+        ex.cur_P = P
         ctx = shape.build(P)
         ctx.P = P
+        if getattr(shape, "assumptions", None):
+            ctx.extra_assume = list(ctx.extra_assume) + list(shape.assumptions(P))
         if shape.initialize:
             # a shape may construct the solver object early (before later declarations)
             solver = getattr(ctx, "early_solver", None) or ps.SchedulingSolver(problem=ctx.problem, **shape.solver_cfg)
@@ -135,6 +138,8 @@ def build_concrete(shape, values, solver_cfg=None, initialize=True):
     with quiet():
         ctx = shape.build(P)
         ctx.P = P
+        if getattr(shape, "assumptions", None):
+            ctx.extra_assume = list(ctx.extra_assume) + list(shape.assumptions(P))
         cfg = dict(shape.solver_cfg)
         cfg.update(solver_cfg or {})
         if initialize and shape.initialize:
@@ -339,8 +344,19 @@ def replay_schedule(desc):
             print("replay: real solver does not admit the pinned schedule -> not reproduced")
             return 0
         m = solver._model
-        g = z3.is_true(m.eval(formula.to_z3(ob.guard), model_completion=True))
-        c = z3.is_true(m.eval(formula.to_z3(ob.clause), model_completion=True))
+        # free variables of the specification itself (symbolic instant, period index...) take their witness value
+        sysc, _ = formula.constants(ctx.phi)
+        specc, _ = formula.constants([formula.to_z3(ob.guard), formula.to_z3(ob.clause)])
+        subs = []
+        for n, c0 in specc.items():
+            if n not in sysc and n in w["pins"]:
+                v = w["pins"][n]
+                subs.append((c0, z3.BoolVal(v) if isinstance(v, bool) else z3.IntVal(v)))
+        gz, cz = formula.to_z3(ob.guard), formula.to_z3(ob.clause)
+        if subs:
+            gz, cz = z3.substitute(gz, *subs), z3.substitute(cz, *subs)
+        g = z3.is_true(m.eval(gz, model_completion=True))
+        c = z3.is_true(m.eval(cz, model_completion=True))
         print(f"replay: solve() returned a solution; guard={g} clause={c}")
         print("tasks:", {n: (t.start, t.end, t.duration, t.scheduled) for n, t in solution.tasks.items()})
         print("resources:", {n: r.assignments for n, r in solution.resources.items()})
@@ -472,6 +488,13 @@ def run_shape(args):
             if getattr(path, "aborted", False):
                 continue
             if path.exc is not None:
+                if getattr(shape, "assumptions", None) and getattr(path, "P", None) is not None:
+                    try:
+                        pre = [formula.to_z3(x) for x in list(path.assume) + list(path.pc) + list(shape.assumptions(path.P))]
+                        if formula.solve(pre, 20000, want_model=False)[0] == "unsat":
+                            continue  # the raising path lies outside the shape's input assumptions
+                    except KeyError:
+                        pass
                 handler = getattr(shape, "on_exception", None)
                 if handler is None:
                     out["results"].append({"id": f"{prop}/{shape.name}/no_exception", "kind": "exception",
